@@ -28,16 +28,16 @@ Definition header_marshal (h : header) : list N * N :=
   let crc := checksum b12 in
   (if h_size h =? c_headerSizeCRC then b12 ++ put_le16 crc else b12, crc).
 
-(* func (h Header) CheckIntegrity() error, as repaired (the byte image is written
-   to the checksum): None = nil, Some true = IntegrityError, Some false = other *)
+(* func (h Header) CheckIntegrity() error, as repaired (a size other than 12 or 14 is rejected first, as
+   decodeHeader does; the byte image is written to the checksum):
+   None = nil, Some true = IntegrityError, Some false = other *)
 Definition header_check_integrity (h : header) : option bool :=
-  if negb (proto_ok (h_proto h)) then Some false
+  if negb ((h_size h =? c_headerSizeCRC) || (h_size h =? c_headerSizeNoCRC)) then Some false
+  else if negb (proto_ok (h_proto h)) then Some false
   else if negb (list_eqb (h_dtype h) fit_dtype) then Some false
   else if h_size h =? c_headerSizeNoCRC then None
   else if h_crc h =? 0 then None
   else
-    (* bh := make([]byte, h.Size): sizes below 14 make the slice expressions
-       panic; callers obtain headers from the decoder or NewHeader (12 or 14) *)
     let bh := header_bytes12 h ++ put_le16 (h_crc h) in
     if checksum bh =? 0 then None else Some true.
 
